@@ -69,35 +69,36 @@ type PropRef struct {
 }
 
 type Sim struct {
-	R       *rng.R
-	Seed    uint64
-	Work    string
-	Gen     *appdrv.Genesis
-	Keys    []*appdrv.Key
-	N       *appdrv.Node
-	Recs    []*Rec
-	Height  int64
-	Time    int64
-	ValSets map[int64][]ValInfo // validator set of block h
-	Stakes  []StakeRef
-	Props   []PropRef
-	TMError string // first Tendermint rejection of a validator update list
-	Violations []string
-	nodeSeq int
-	Contracts []ContractRef
-	Children  []rtypes.Address // contracts created by inner CREATE (no native code marker)
-	PendingProg map[string]evmgen.Program // deploy tx hash -> program
-	Opt     Options
+	R                     *rng.R
+	Seed                  uint64
+	Work                  string
+	Gen                   *appdrv.Genesis
+	Keys                  []*appdrv.Key
+	N                     *appdrv.Node
+	Recs                  []*Rec
+	Height                int64
+	Time                  int64
+	ValSets               map[int64][]ValInfo // validator set of block h
+	Stakes                []StakeRef
+	Props                 []PropRef
+	TMError               string // first Tendermint rejection of a validator update list
+	Violations            []string
+	nodeSeq               int
+	Contracts             []ContractRef
+	Children              []rtypes.Address          // contracts created by inner CREATE (no native code marker)
+	PendingProg           map[string]evmgen.Program // deploy tx hash -> program
+	Opt                   Options
 	absentIdx, absentLeft int
-	Obs     Observer
-	GenesisEligible bool // genesis validators satisfy the governance limits (count, minimum stake)
-	Cur     *BeginArgs // header of the block in execution
-	PendingEvidence []rtypes.Address // scenario: evidence to inject into the next block
-	PendingCheck    []func() []byte  // scenario: transactions to CheckTx (never delivered)
-	ForceScenario   int              // scenario to run at the next scenario slot (second phase of a template)
-	VoteAll         bool             // scenario: every validator votes on the latest proposal when its window opens
-	Restarted bool // a restart happened since the last EndBlock
-	EverRestarted bool
+	Obs                   Observer
+	GenesisEligible       bool             // genesis validators satisfy the governance limits (count, minimum stake)
+	Cur                   *BeginArgs       // header of the block in execution
+	PendingEvidence       []rtypes.Address // scenario: evidence to inject into the next block
+	PendingCheck          []func() []byte  // scenario: transactions to CheckTx (never delivered)
+	ForceScenario         int              // template number + 1 to run at the next scenario slot (0 = free choice)
+	QuietAll              bool             // scenario: every proposal gets a quiet window around its applying height
+	VoteAll               bool             // scenario: every validator votes on the latest proposal when its window opens
+	Restarted             bool             // a restart happened since the last EndBlock
+	EverRestarted         bool
 }
 
 // Observer receives the primary node's state around every call (monitors).
@@ -113,12 +114,16 @@ type Observer interface {
 }
 
 type Options struct {
-	MaxBlocks   int
-	TxPerBlock  int
-	WithEVM     bool
-	WithCheckTx bool // interleave CheckTx on the primary
-	InvalidPct  int
+	MaxBlocks    int
+	TxPerBlock   int
+	WithEVM      bool
+	WithCheckTx  bool // interleave CheckTx on the primary
+	InvalidPct   int
+	PlanScenario int // template number + 1 that this history runs at its first applicable slot (0 = none)
 }
+
+// NumScenarios is the number of scenario templates (scenarios.go).
+const NumScenarios = 9
 
 func (s *Sim) add(r *Rec) *Rec { s.Recs = append(s.Recs, r); return r }
 
